@@ -157,6 +157,17 @@ CHECKS = {
                      "tables until the other side has run to quiescence, and connection churn runs free with seeded "
                      "yields at line boundaries.",
                 ref="4 C14", note=NODE_NOTE + "; the stall / yield perturbation only preempts at line boundaries."),
+    "C18": dict(cat="fault_enumeration", tech="lockstep node harness; Node.stop() runs in a harness thread on the "
+                "virtual clock while peers react by script; event-log model + census of sockets and threads after "
+                "return; half of the cases repeated under directed schedule perturbation",
+                text="0..3 connections in each of 7 states at stop time x 5 peer reactions to the DPR (prompt, late, "
+                     "never, close, DPA then close) x newcomer during shutdown x persistent-peer reconnect deadline "
+                     "inside the window x force x wait timeouts; enumerated for 0..2 connections, sampled for 3. Judged: "
+                     "DPR(REBOOTING) to exactly the ready peers, none when forced, close soon after DPA or at the "
+                     "timeout, newcomers closed unserved, no DWR / dial while stopping, stop() returns without "
+                     "raising, every listener and peer socket closed, node / application / connection threads ended.",
+                ref="4 C18", note=NODE_NOTE + "; stop() trusts select() to time out within wakeup_interval: the gate "
+                "grants the I/O loop its iterations before the census."),
 }
 
 NOT_YET = "check not built yet in this round (planned in DESIGN.md section 4); no claim is made"
